@@ -4,9 +4,11 @@ import (
 	"encoding/json"
 	"errors"
 	"fmt"
+	"math"
 	"os"
 	"path/filepath"
 	"sync"
+	"unicode/utf8"
 )
 
 const (
@@ -150,6 +152,18 @@ func (c *Config) Validate() error {
 
 	if c.CompactionRatio <= 1.0 {
 		return fmt.Errorf("%w: Compaction ratio must be greater than 1.0", ErrInvalidConfig)
+	}
+
+	// The manifest is stored as JSON, which cannot represent NaN or infinity
+	// (NaN also slips through the comparison above)
+	if math.IsNaN(c.CompactionRatio) || math.IsInf(c.CompactionRatio, 0) {
+		return fmt.Errorf("%w: Compaction ratio must be a finite number", ErrInvalidConfig)
+	}
+
+	// ... and stores strings as UTF-8: any other byte sequence would be
+	// replaced on the way to disk and come back as a different directory
+	if !utf8.ValidString(c.WALDir) || !utf8.ValidString(c.SSTDir) {
+		return fmt.Errorf("%w: directory names must be valid UTF-8", ErrInvalidConfig)
 	}
 
 	// Validate Transaction settings
